@@ -2,7 +2,7 @@
    bandit/plugins/injection_shell.py (B602..B607) and bandit/plugins/injection_wildcard.py (B609). *)
 From Coq Require Import List NArith ZArith Bool String.
 From Bandit Require Import Base.PyStr Ast.Node Engine.Types Engine.Resolve Engine.Context Engine.Linerange
-     Engine.Scan Regex.Regex Gen.Regexes Gen.Registry.
+     Engine.Scan Regex.Regex Gen.Regexes.
 Import ListNotations.
 Local Open Scope string_scope.
 Local Open Scope list_scope.
@@ -328,21 +328,12 @@ Definition b609 (cfg : jv) (c : ctx) : res (option rissue) :=
     end
   else Ok None.
 
-(* Work-around for Engine/Scan.v [effective_cfg]: BanditTestSet._load_tests falls back to gen_config
-   whenever config.get_option(...) *is None*, i.e. also when the YAML says `shell_injection: null`
-   (or `~`); [effective_cfg] hands that JNull to the plugin.  The real plugin functions never see
-   None, so the wiring below substitutes the generated default; b602..b609 themselves are untouched. *)
-Definition shell_default_cfg : jv :=
-  match assoc (s2p "shell_injection") defaults with Some v => v | None => JNull end.
-Definition null_to_default (f : jv -> ctx -> res (option rissue)) (cfg : jv) : ctx -> res (option rissue) :=
-  f (match cfg with JNull => shell_default_cfg | _ => cfg end).
-
 Definition shell_plugins : list plugin := [
-  Plugin (s2p "subprocess_popen_with_shell_equals_true") (null_to_default b602);
-  Plugin (s2p "subprocess_without_shell_equals_true") (null_to_default b603);
-  Plugin (s2p "any_other_function_with_shell_equals_true") (null_to_default b604);
-  Plugin (s2p "start_process_with_a_shell") (null_to_default b605);
-  Plugin (s2p "start_process_with_no_shell") (null_to_default b606);
-  Plugin (s2p "start_process_with_partial_path") (null_to_default b607);
-  Plugin (s2p "linux_commands_wildcard_injection") (null_to_default b609)
+  Plugin (s2p "subprocess_popen_with_shell_equals_true") b602;
+  Plugin (s2p "subprocess_without_shell_equals_true") b603;
+  Plugin (s2p "any_other_function_with_shell_equals_true") b604;
+  Plugin (s2p "start_process_with_a_shell") b605;
+  Plugin (s2p "start_process_with_no_shell") b606;
+  Plugin (s2p "start_process_with_partial_path") b607;
+  Plugin (s2p "linux_commands_wildcard_injection") b609
 ].
